@@ -173,6 +173,19 @@ pub fn run(ctx: &mut RunCtx) -> Result<(), Violation> {
         if pp2.max_degree() != pp.max_degree() {
             return Err(fail("reloaded parameters have a different degree".into()));
         }
+        // the raw encoding (trusted bytes, unchecked decoder): the same object again
+        {
+            let raw = pp.to_raw_var_bytes();
+            // SAFETY (API contract): the bytes were produced by this library's own encoder.
+            let pp3 = match guarded(|| unsafe { PublicParameters::from_slice_unchecked(&raw) }) {
+                Ok(p) => p,
+                Err(p) => return Err(Violation::new("panic", format!("PublicParameters::from_slice_unchecked panicked on the library's own raw encoding: {}", p))),
+            };
+            ctx.st.eval(sig ^ 0xc3, true);
+            if pp3.to_raw_var_bytes() != raw || pp3.to_var_bytes() != var || pp3.max_degree() != pp.max_degree() {
+                return Err(fail("parameters reloaded from their raw encoding encode differently".into()));
+            }
+        }
         let env_c = ctx.env(&mut s);
         match deploy::compile(&pp2, &sc.label, &sc.prog, route, &env_c) {
             Ok((p3, v3)) => {
